@@ -143,9 +143,13 @@ func c14Build(rng *rand.Rand, f c14Fail, depth int, inModule bool) (main string,
 		return pre + defs + pick(rng, []string{"res := fn0(3)\n", "p := 1; res := fn0(3); q := 2\n", "res := [fn0(3)]\n", "for k := 0; k < 2; k++ {\n  res := fn0(k)\n}\n"}), ""
 	}
 	mod = defs + "export {run: fn0}\n"
-	main = "m := import(\"pmod\")\n" + pick(rng, []string{"res := m.run(3)\n", "p := 1; res := m.run(3)\n"})
+	// also: the calling statement is the very first byte of its file (main, or a module in between)
+	main = pick(rng, []string{"m := import(\"pmod\")\nres := m.run(3)\n", "m := import(\"pmod\")\np := 1; res := m.run(3)\n", "import(\"pmod\").run(3)\n", "import(\"pmod2\")\n", "q := import(\"pmod2\")\n"})
 	return
 }
+
+// a module whose first statement, at offset 0 of its file, calls into pmod
+const c14Mod2 = "import(\"pmod\").run(3)\nexport 1\n"
 
 func (c *c14) RunCase(r *fw.Rec, cs fw.Case) {
 	rng := cs.Rng("c14")
@@ -178,9 +182,10 @@ func (c *c14) RunCase(r *fw.Rec, cs fw.Case) {
 	var mmods map[string]*ref.Module
 	var emods *tengo.ModuleMap
 	if mod != "" {
-		mmods = map[string]*ref.Module{"pmod": {Src: []byte(mod)}}
+		mmods = map[string]*ref.Module{"pmod": {Src: []byte(mod)}, "pmod2": {Src: []byte(c14Mod2)}}
 		emods = tengo.NewModuleMap()
 		emods.AddSourceModule("pmod", []byte(mod))
+		emods.AddSourceModule("pmod2", []byte(c14Mod2))
 	}
 	mkIn := func() map[string]ref.Value { return map[string]ref.Value{"hostfail": hostM["hostfail"]} }
 	model := ref.Run(ref.Program{Src: []byte(src), Inputs: mkIn, Mods: mmods, Cfg: ref.DefaultConfig()}, cs.Seed+int64(cs.Index))
